@@ -31,6 +31,8 @@ CHECKS = {
  "C09": ("model_checking", "exhaustive enumeration of a rule-text grammar x five submission paths (direct engine reference, inline, session, persistent, after restart) through the real Handler", "Every rule of the term grammar (all 1-3 leaf arithmetic trees in all parenthesisations, float/int/string/bool/vector constants in every position, function calls, aggregates, negation, comparisons) is evaluated five ways on the same facts; typed answers (value and kind) must agree and acceptance must be uniform.", "the direct IQLEngine evaluation of the parsed text is the reference for what the rule denotes", "2/C09", "E2"),
  "C34": ("model_checking", "exhaustive enumeration of rule sets x persistent/session splits x registration orders through the real Handler vs own SCC computation", "All closed rule sets of <=3 clauses over 2 (quick) / 3 (thorough) predicates with signed literals, every split between persistent and session rules, both registration orders, then a query on every head: negative cycles must be rejected at registration or query time, everything else accepted and answered.", "own Tarjan SCC / stratification in harness/src/r1.rs", "2/C34", "E2"),
  "C35": ("model_checking", "exhaustive enumeration of tiny relations x sort annotations x limit/offset through the real Handler vs brute-force permutation oracle", "All pairs/triples (thorough: quadruples) of a 10-value mixed-kind key pool as sort column(s), every annotation set, every limit/offset <= rows+1: the rows must be the requested slice of some inversion-free ordering; 97 relations of 24 rows with NaNs at every subset of 5 positions for the never-fails clause.", "harness partial order: numeric kinds by value, NaN and cross-kind unordered", "2/C35", "E2"),
+ "C18": ("model_checking", "explicit-state exploration of bounded histories applied in lock-step to twin engines (incremental maintenance on / off), enabling at every position", "All histories to depth 3/4 over 15 symbols (base writes, rule registrations incl. derived-on-derived, clause removal, rule drops, explicit materialization of the current answer) from a seeded start state, incremental maintenance enabled before every step k; ?p ?r ?t must answer identically on both engines after every step and the plain engine must agree with the reference evaluation.", "explicit materialization goes through the public KnowledgeGraph::materialize_derived_relation because auto-materialization never succeeds on the unchanged tree; its stale-answer classes are listed known findings", "2/C18", "E2"),
+ "C19": ("model_checking", "explicit-state exploration of bounded write histories with consistent reads of the incremental arrangement after every step", "Sequential leg: all histories to depth 4/5 over 8 write symbols (duplicates, absent deletes), maintenance enabled before every step k; read_relation_consistent must equal the set model after every step. The reader/writer interleaving leg belongs to E4.", "DD worker thread is live but observed only through synchronous APIs", "2/C19", "E2"),
 }
 NA_DEFAULT = "check not built yet in this round (work in progress; DESIGN.md section 6 build order)"
 
@@ -55,7 +57,7 @@ m = {
  "engines": [
    {"name": "E1", "path": "harness/src/e1.rs", "serves_properties": ["C01","C02","C03","C04","C06","C07","C08"], "kind_free_text": E1},
    {"name": "E5", "path": "harness/src/e5.rs", "serves_properties": ["C26","C28","C31"], "kind_free_text": "E5 FIN: nested loops over complete finite domains"},
-   {"name": "E2", "path": "harness/src/e2_store.rs, harness/src/e2_handler.rs, harness/src/e2_index.rs, harness/src/e2_hnsw.rs, harness/src/e2_rules.rs, harness/src/e2_c35.rs", "serves_properties": [k for k,v in CHECKS.items() if v[5]=="E2"], "kind_free_text": "E2 HIST: explicit-state exploration of all operation sequences up to a depth bound over a small alphabet, every sequence executed on real StorageEngine / Handler objects and compared with a reference model after every step"},
+   {"name": "E2", "path": "harness/src/e2_store.rs, harness/src/e2_handler.rs, harness/src/e2_index.rs, harness/src/e2_hnsw.rs, harness/src/e2_rules.rs, harness/src/e2_c35.rs, harness/src/e2_incr.rs", "serves_properties": [k for k,v in CHECKS.items() if v[5]=="E2"], "kind_free_text": "E2 HIST: explicit-state exploration of all operation sequences up to a depth bound over a small alphabet, every sequence executed on real StorageEngine / Handler objects and compared with a reference model after every step"},
  ],
  "checks": [],
  "not_applicable": [],
